@@ -53,6 +53,9 @@ def run_spaces(fail_at: Optional[int], nruns: int) -> Dict[str, dict]:
                                                             {"mode": "by_position", "context": {"a": a, "factor": [float(10 + i) for i in range(nruns)]}}]},
         "product": {"combine": "combinatorial", "blocks": [{"mode": "by_position", "context": {"value": vals[:2], "a": a[:2]}},
                                                            {"mode": "combinatorial", "context": {"factor": [3.0, 4.0][: max(1, nruns - 1)]}}]},
+        # beyond the small scope: values nested six container levels deep, keys written out of order at every level
+        "deep": {"blocks": [{"mode": "by_position", "context": {"value": vals, "a": a, "cfg": [
+            {"z": 1, "m": {"y": [{"q": {"p2": [{"zz": i, "aa": {"k2": 1, "k1": [i, {"b": 2, "a": 1}]}}], "p1": 0}}], "x": i}} for i in range(nruns)]}}]},
         # strings with line breaks of every kind, at the end too (a YAML block scalar ends with one)
         "newlines": {"blocks": [{"mode": "by_position", "context": {"value": vals, "a": a, "note": ["alpha\n", "x\x0by\r\nz\r", "p\u2028q\x85\x0c"][:nruns] + ["t\n\n"] * max(0, nruns - 3)}}]},
         # a combinatorial block whose keys are WRITTEN in non-alphabetical order: the plan iterates keys in sorted order, last fastest
@@ -68,7 +71,7 @@ def run_spaces(fail_at: Optional[int], nruns: int) -> Dict[str, dict]:
 
 
 PIPE_BASE_CTX: Dict[str, Dict[str, Any]] = {"consume": {"tagsrc": "T0", "scrap": 1.5}}
-COMPAT = {"consume": ["zip", "product-unsorted"], "plain": ["zip", "two-blocks", "product", "csv", "unicode", "product-unsorted", "newlines"], "two": ["two-blocks", "product", "csv"], "sweep": ["sweepctx"]}
+COMPAT = {"consume": ["zip", "product-unsorted"], "plain": ["zip", "two-blocks", "product", "csv", "unicode", "product-unsorted", "newlines", "deep"], "two": ["two-blocks", "product", "csv"], "sweep": ["sweepctx"]}
 
 
 def plan_of(rs: dict, scratch: str) -> List[dict]:
@@ -282,7 +285,7 @@ LAST_RECORDS: List[dict] = []  # all records of the most recent launch_ids() lau
 def judge_ids(scratch: str, tier: str) -> Tuple[int, List[Tuple[str, str, dict]]]:
     out: List[Tuple[str, str, dict]] = []
     n_eval = 0
-    for pipe, rsname in [("plain", "zip"), ("plain", "csv"), ("two", "product"), ("plain", "two-blocks"), ("plain", "unicode"), ("plain", "newlines")]:
+    for pipe, rsname in [("plain", "zip"), ("plain", "csv"), ("two", "product"), ("plain", "two-blocks"), ("plain", "unicode"), ("plain", "newlines"), ("plain", "deep")]:
         rs = run_spaces(None, 3)[rsname]
         case = {"kind": "ids", "pipe": pipe, "rs": rsname}
 
